@@ -497,7 +497,8 @@ func (c *Conn) AnnounceHeaders() error {
 		known = 0
 	}
 	msg := wire.NewMsgHeaders()
-	for h := known + 1; h <= int32(len(n.chain)) && len(msg.Headers) < n.Cap; h++ {
+	// (the reply cap applies to getheaders answers, not to announcements)
+	for h := known + 1; h <= int32(len(n.chain)) && len(msg.Headers) < 2000; h++ {
 		msg.Headers = append(msg.Headers, WireHeader(n.chain[h-1]))
 	}
 	top := known + int32(len(msg.Headers))
